@@ -8,7 +8,7 @@ import UgoVerif.Proofs.ExecAtStartsCall
   function; every suspended frame resumes at an instruction start; every position stored in an
   error handler is an instruction start.  "The VM never executes operand bytes."
 -/
-namespace UgoVerif.VM
+namespace UgoVerif.VM.Cfi
 open UgoVerif UgoVerif.Go
 open UgoVerif.Compile (Walk Bd readBE opWidth)
 
@@ -195,4 +195,4 @@ theorem good_prologue (g : V) (args : List V) {s s' : State} (h0 : Safe0 s)
       simp only at h k2
       exact good_prologueB k2 h
 
-end UgoVerif.VM
+end UgoVerif.VM.Cfi
